@@ -25,6 +25,7 @@ LEVEL_TEXT = (
     "classes whose message renders."
     ' Weights are also handed over as numpy scalars; integer operands beyond 2^53 are included and integer-closed commands on all-integer inputs are compared exactly; weight vectors that cancel to zero are included; a whole-model part runs the commands over shared columns.'
 )
+LEVEL_TEXT += ' Added later: very large whole-number weights (totals near 2^63) and rounded shares; orderings compared within the forward error bound when cancellation occurs; producers handed over as Command objects of another program with the same result names.'
 LEVEL_NOTE = "Integer overflow is outside the domain (lattice values are small); trusts numpy and vcheck/ref."
 RULE = (
     "Cases: (matrix) every n-ary arithmetic command x n in 1..3 (thorough 1..4) x every int64/float64 assignment x "
